@@ -165,6 +165,14 @@ pub fn c13(tier: Tier) -> PropSpec {
                 c13_pairs,
             ),
             Part::new("adf", tier.pick(15000, 150000), || sem_case(1, 6), c13_adf),
+            // the same queries under every cargo feature set (probe binaries of C12, op sequences only)
+            Part::with_shrink(
+                "feature-lanes",
+                tier.pick(400, 4000),
+                200,
+                crate::props::features::probe_ops_case,
+                crate::props::features::c12_check_entry,
+            ),
             Part::with_shrink(
                 "cli-counter",
                 tier.pick(200, 2000),
